@@ -3909,6 +3909,10 @@ class BoutMesh(Mesh):
             # Create poloidal coordinate which goes from 0 to 2pi in the core region
             theta = deepcopy(y)
             myg = self.user_options.y_boundary_guards
+            if all(r.connections["lower"] is not None for r in self.regions.values()):
+                # No targets (all regions are periodic in y), so no y-boundary cells were
+                # added to the grid
+                myg = 0
             for t in [theta.centre, theta.xlow, theta.ylow]:
                 # Make zero of theta half a point before the start of the core region
                 t -= theta.ylow[0, numpy.newaxis, jyseps1_1 + myg + 1, numpy.newaxis]
